@@ -303,10 +303,10 @@ class LF:
         if ck.startswith(nm + '(') and not (vm and nm in ('hadamard', 'scale', 'copy_from', 'axpby', 'waxpby', 'negate', 'recip')):
             st[ck] = val
 
-    def run(self, init=None):
+    def run(self, init=None, local_stores=False):
         f = self.f
         out = []
-        for val, ret, ev, tr in Walker(f, cut_loops=True).leaves():
+        for val, ret, ev, tr in Walker(f, cut_loops=True, local_stores=local_stores).leaves():
             if ret[0] == 'diverge':
                 continue
             st = dict(init or {})
@@ -372,6 +372,8 @@ class LFSplit(LF):
             b = self.ev(st, args[0], depth + 1)
             if b is not None and b[0] == 'P' and _is_tail_range(args[1]):
                 return ('V', b[2])
+            if b is not None and b[0] == 'P' and canon(args[1]) == '0_usize':
+                return ('S', b[1])
             if b is not None and b[0] == 'P':
                 return None
         if nm == 'dot' and len(args) == 2:
@@ -423,11 +425,11 @@ class LFSplit(LF):
             b = self.ev(st, s[1])
             if b is not None and b[0] == 'P':
                 return bk, 'h'
-        if s[0] == 'call' and last_seg(s[1].split('#')[0]) in ('index', 'index_mut') and len(s[2]) == 2 and _is_tail_range(s[2][1]):
+        if s[0] == 'call' and last_seg(s[1].split('#')[0]) in ('index', 'index_mut') and len(s[2]) == 2 and (_is_tail_range(s[2][1]) or canon(s[2][1]) == '0_usize'):
             bk = canon(self._strip(s[2][0]))
             b = self.ev(st, s[2][0])
             if b is not None and b[0] == 'P':
-                return bk, 't'
+                return bk, ('t' if _is_tail_range(s[2][1]) else 'h')
         return None
 
     def set_place(self, st, sym, val):
@@ -452,6 +454,13 @@ class LFSplit(LF):
         args = [f.sym_operand(a) for a in c.args]
         vm = (c.callee.trait or '').endswith('VectorMath')
         A = lambda i: self.ev(st, args[i])
+        if nm == 'fill' and len(args) == 2:
+            a = A(1)
+            if a is not None and a[0] == 'S':
+                self.set_place(st, args[0], ('P', a[1], L_scale(L_atom('ONES'), a[1])))
+            else:
+                self.set_place(st, args[0], None)
+            return
         if vm and nm == 'copy_from' and len(args) == 2:
             a = A(1)
             if a is not None and a[0] == 'P':
@@ -517,3 +526,74 @@ def L_reduce(form, rules):
         if q:
             out[k] = q
     return out
+
+
+# ---------------------------------------------------------------------------
+# exact rational functions over polynomials (for identities with nested reciprocals and squared roots)
+# ---------------------------------------------------------------------------
+
+
+def P_pow(a, k):
+    out = P_const(1)
+    for _ in range(k):
+        out = P_mul(out, a)
+    return out
+
+
+class RatF:
+    __slots__ = ('n', 'd')
+
+    def __init__(self, n, d=None):
+        self.n, self.d = n, (d if d is not None else P_const(1))
+
+    def __add__(self, o):
+        return RatF(P_add(P_mul(self.n, o.d), P_mul(o.n, self.d)), P_mul(self.d, o.d))
+
+    def __sub__(self, o):
+        return RatF(P_add(P_mul(self.n, o.d), P_mul(o.n, self.d), -1), P_mul(self.d, o.d))
+
+    def __mul__(self, o):
+        return RatF(P_mul(self.n, o.n), P_mul(self.d, o.d))
+
+    def inv(self):
+        return RatF(self.d, self.n)
+
+    def __truediv__(self, o):
+        return self * o.inv()
+
+    def pow(self, k):
+        if k >= 0:
+            return RatF(P_pow(self.n, k), P_pow(self.d, k))
+        return RatF(P_pow(self.d, -k), P_pow(self.n, -k))
+
+    def is_zero(self, rules=()):
+        return not P_reduce(self.n, list(rules))
+
+    def fmt(self):
+        return '(%s)/(%s)' % (P_fmt(self.n), P_fmt(self.d))
+
+
+def to_ratf(poly, reg, depth=0):
+    """expand reciprocal atoms and even powers of sqrt/norm atoms through the registry into one fraction"""
+    if depth > 12:
+        raise RuntimeError('to_ratf: registry too deep')
+    total = RatF({})
+    for m, c in poly.items():
+        term = RatF(P_const(c))
+        for atom, e in m:
+            if e.denominator != 1:
+                raise RuntimeError('fractional exponent on %r' % (atom,))
+            e = int(e)
+            kind = atom[0] if isinstance(atom, tuple) else None
+            if kind == 'recip' and atom in reg:
+                term = term * to_ratf(reg[atom], reg, depth + 1).pow(-e)
+            elif kind in ('sqrt', 'norm') and atom in reg:
+                k, r = e // 2, e % 2
+                if k:
+                    term = term * to_ratf(reg[atom], reg, depth + 1).pow(k)
+                if r:
+                    term = term * RatF(P_atom(atom))
+            else:
+                term = term * (RatF(P_atom(atom, e)) if e > 0 else RatF(P_const(1), P_atom(atom, -e)))
+        total = total + term
+    return total
